@@ -134,12 +134,19 @@ def crosstalk_sites(w: World, merge_groups: list[set] | None = None, labels: dic
                 sites.append((e.num, "*", sorted(set(wild))))
     for e in w.ents.values():
         for key, (sr, sg) in _reads(e):
-            ems = []
+            # the known finding is about what ONE wire network carries: two emitters of X on the
+            # same colour.  One emitter per colour with an operand that reads both colours is a
+            # network-selection matter and is judged, never excluded.
+            per_net = []
             if sr and 1 in e.net:
-                ems += net_emit.get(e.net[1], [])
+                per_net.append(net_emit.get(e.net[1], []))
             if sg and 2 in e.net:
-                ems += net_emit.get(e.net[2], [])
-            who = sorted({num for num, em in ems if em is None or key in em})
+                per_net.append(net_emit.get(e.net[2], []))
+            who: list = []
+            for ems in per_net:
+                cand = sorted({num for num, em in ems if em is None or key in em})
+                if len(cand) > len(who):
+                    who = cand
             if memory_ok and len(who) >= 2:
                 # the two gates of one memory cell legitimately share the cell's network
                 seen_mod = set()
@@ -158,6 +165,10 @@ def crosstalk_sites(w: World, merge_groups: list[set] | None = None, labels: dic
             if None not in names and any(names <= g for g in merge_groups):
                 continue
             sites.append((e.num, key[1], who))
+    # same family (an operand reads a sum nobody asked for): folded multi-condition rows that
+    # read both colours while their signal arrives on both (KF-multi-cond-both-colours)
+    for (num, name, on_r, on_g) in multi_cond_both_colour_sites(w):
+        sites.append((num, name, sorted(set(on_r) | set(on_g))))
     return sites
 
 
@@ -235,4 +246,40 @@ def bundle_crosstalk_sites(w: World, allowed: list[set], per_entity: dict | None
                     sites.append((e.num, sorted(k[1] for k in s)))
             elif not any(s <= a for a in allowed):
                 sites.append((e.num, sorted(k[1] for k in s)))
+    return sites
+
+
+def multi_cond_both_colour_sites(w: World):
+    """KF-multi-cond-both-colours: a folded multi-condition decider reads its operands without a
+    network selection; when the operand's signal arrives on the red AND on the green wire (two
+    same-typed sources separated by colour) the row compares the sum."""
+    net_emit: dict[int, list] = {}
+    for e in w.ents.values():
+        if e.kind == "const":
+            conns = (1, 2)
+        elif e.kind in ("arith", "decider"):
+            conns = (3, 4)
+        elif e.emit:
+            conns = (1, 2)
+        else:
+            continue
+        em = _emits(e) if not e.emit else None
+        for c in conns:
+            n = e.net.get(c)
+            if n is not None:
+                net_emit.setdefault(n, []).append((e.num, em))
+    sites = []
+    for e in w.ents.values():
+        if e.kind != "decider":
+            continue
+        dc = e.cb.get("decider_conditions") or {}
+        if len(dc.get("conditions") or []) < 2:
+            continue
+        for key, (sr, sg) in _reads(e):
+            if not (sr and sg) or 1 not in e.net or 2 not in e.net:
+                continue
+            on_r = [n for n, em in net_emit.get(e.net[1], []) if em is None or key in em]
+            on_g = [n for n, em in net_emit.get(e.net[2], []) if em is None or key in em]
+            if on_r and on_g:
+                sites.append((e.num, key[1], on_r, on_g))
     return sites
